@@ -37,9 +37,9 @@ ClassInfo == [c \in (FileFaults \cup DefFaults \cup {"mains"}) \ {"none"} |->
      [] c = "dupfunc" -> [id |-> "T2008", stem |-> "Duplicated function or template", located |-> TRUE]
      [] c = "mains" -> [id |-> "P1002", stem |-> "Multiple main components", located |-> FALSE]]
 
-VARIABLES ffault, dfault, mains, place, link,   \* the scenario
+VARIABLES ffault, dfault, mains, place, link, incmain,   \* the scenario
           phase, fileState, defState, shown, nshown, exit, next
-vars == <<ffault, dfault, mains, place, link, phase, fileState, defState, shown, nshown, exit, next>>
+vars == <<ffault, dfault, mains, place, link, incmain, phase, fileState, defState, shown, nshown, exit, next>>
 \* how file 1 is handed to the tool: by its path; by its path while it sits in (or below) a directory also given with -L, or
 \* is itself given with -L; through the directory that contains it.  Ref does not depend on it: a file named by the user is
 \* a file to be read and analysed wherever it lies.  (A file that does not exist cannot be named through its directory.)
@@ -56,6 +56,9 @@ Init == /\ ffault \in [F -> FileFaults]
         \* by name and by include, and is a user-specified file all the same
         /\ link \in (IF NFiles >= 2 THEN BOOLEAN ELSE {FALSE})
         /\ link => (place = "plain" /\ ffault[1] \notin {"missing", "unreadable"})
+        \* incmain: file 1 includes a further file (not named) that holds a main component of its own
+        /\ incmain \in BOOLEAN
+        /\ incmain => (place = "plain" /\ ~link)
         /\ phase = "read" /\ next = 1
         /\ fileState = [f \in F |-> "pending"] /\ defState = [f \in F |-> "pending"]
         /\ shown = {} /\ nshown = 0 /\ exit = -1
@@ -63,7 +66,7 @@ Init == /\ ffault \in [F -> FileFaults]
 \* every error report is at error level, so it passes --level; it is located in a named file or location-less
 \* the first `mains` files carry a main component; it only exists if the file's text reaches the parser intact
 Intact(f) == ffault[f] \notin {"missing", "unreadable", "syntax"}
-EffMains == Cardinality({f \in 1..NFiles : f <= mains /\ Intact(f)})
+EffMains == Cardinality({f \in 1..NFiles : f <= mains /\ Intact(f)}) + (IF incmain /\ Intact(1) THEN 1 ELSE 0)
 Display(c) == /\ shown' = shown \cup {c}
               /\ nshown' = nshown + 1
 
@@ -91,7 +94,7 @@ ReadFile == /\ phase = "read" /\ next <= NFiles
                     [] ff = "none" ->
                          /\ fileState' = [fileState EXCEPT ![f] = "read"]
                          /\ UNCHANGED <<defState, shown, nshown>>
-            /\ UNCHANGED <<ffault, dfault, mains, place, link, phase, exit>>
+            /\ UNCHANGED <<ffault, dfault, mains, place, link, incmain, phase, exit>>
 
 \* main components, duplicate names, removal of syntactic sugar
 Merge == /\ phase = "read" /\ next > NFiles
@@ -102,7 +105,7 @@ Merge == /\ phase = "read" /\ next > NFiles
             /\ shown' = shown \cup (IF EffMains >= 2 THEN {"mains"} ELSE {}) \cup {dfault[f] : f \in dups \cup sugar}
             /\ nshown' = nshown + (IF EffMains >= 2 THEN 1 ELSE 0) + Cardinality(dups) + Cardinality(sugar)
          /\ phase' = "analyse" /\ next' = 1
-         /\ UNCHANGED <<ffault, dfault, mains, place, link, fileState, exit>>
+         /\ UNCHANGED <<ffault, dfault, mains, place, link, incmain, fileState, exit>>
 
 Analyse == /\ phase = "analyse" /\ next <= NFiles
            /\ LET f == next IN
@@ -112,12 +115,12 @@ Analyse == /\ phase = "analyse" /\ next <= NFiles
                       THEN /\ defState' = [defState EXCEPT ![f] = "dropped"] /\ Display("paramdup")
                       ELSE /\ defState' = [defState EXCEPT ![f] = "analysed"] /\ UNCHANGED <<shown, nshown>>
                  ELSE UNCHANGED <<defState, shown, nshown>>
-           /\ UNCHANGED <<ffault, dfault, mains, place, link, phase, fileState, exit>>
+           /\ UNCHANGED <<ffault, dfault, mains, place, link, incmain, phase, fileState, exit>>
 
 Summarise == /\ phase = "analyse" /\ next > NFiles
              /\ phase' = "exited"
              /\ exit' = IF nshown = 0 THEN 0 ELSE 1
-             /\ UNCHANGED <<ffault, dfault, mains, place, link, fileState, defState, shown, nshown, next>>
+             /\ UNCHANGED <<ffault, dfault, mains, place, link, incmain, fileState, defState, shown, nshown, next>>
 
 Next == ReadFile \/ Merge \/ Analyse \/ Summarise
 Spec == Init /\ [][Next]_vars /\ WF_vars(Next)
@@ -132,7 +135,7 @@ CleanMeansComplete == (Exited /\ exit = 0) => ((\A f \in F : fileState[f] = "rea
 ExitIsZeroOrOne == Exited => exit \in {0, 1}
 Terminates == <>Exited
 
-Emit == Exited => PrintT(<<"CASE", ToJson([ffault |-> ffault, dfault |-> [f \in F |-> EffectiveDefFault(f)], mains |-> mains, place |-> place, link |-> link,
+Emit == Exited => PrintT(<<"CASE", ToJson([ffault |-> ffault, dfault |-> [f \in F |-> EffectiveDefFault(f)], mains |-> mains, place |-> place, link |-> link, incmain |-> incmain,
                                          classes |-> SetToSeq(FaultClasses)])>>)
 EmitClassInfo == PrintT(<<"CLASSINFO", ToJson(ClassInfo)>>)
 =============================================================================
